@@ -44,6 +44,7 @@ type Scenario struct {
 	DelayMs    int              `json:"delay_ms,omitempty"`
 	TimeoutMs  int              `json:"read_timeout_ms"`
 	ConsumerMs int              `json:"consumer_ms,omitempty"` // the application spends this long on every envelope before it takes the next one off the channel
+	PaceMs     int              `json:"pace_ms,omitempty"`     // scripted sender: pause between envelopes (shorter than the read timeout; the whole transfer may take much longer than it)
 	BadFirst   bool             `json:"bad_first,omitempty"`   // scripted: the sequence does not start with an SOA
 	Rcode      int              `json:"rcode,omitempty"`       // scripted: envelope RcodeAt carries this RCODE
 	RcodeAt    int              `json:"rcode_at,omitempty"`
@@ -105,13 +106,16 @@ func Gen(seed uint64, tier string) any {
 	sc.ShortRead = core.Pick(r, 0, 40, 90)
 	sc.DelayMs = core.Pick(r, 0, 1, 20)
 	sc.TimeoutMs = core.Pick(r, 2000, 5000, 500)
+	if core.Chance(r, 15) {
+		sc.PaceMs = sc.TimeoutMs * core.Pick(r, 3, 6, 8) / 10
+	}
 	if core.Chance(r, 20) {
 		sc.ConsumerMs = core.Pick(r, 1, sc.TimeoutMs/2, sc.TimeoutMs+100, 3*sc.TimeoutMs)
 	}
 	defer func() {
 		// a slow consumer shifts the instant at which later envelopes are verified;
 		// keep that apart from the fudge-boundary experiments
-		if sc.ConsumerMs > 0 {
+		if sc.ConsumerMs > 0 || sc.PaceMs > 0 {
 			var ops []common.FrameOp
 			for _, op := range sc.Ops {
 				if op.Kind != "delay" {
@@ -131,7 +135,7 @@ func Gen(seed uint64, tier string) any {
 	case x < 75:
 		kinds := []string{"drop", "dup", "swap", "flip", "id", "rcode", "stall", "delay"}
 		if sc.Alg != "" {
-			kinds = append(kinds, "unsign", "wrongkey", "flip", "unsign", "wrongkey")
+			kinds = append(kinds, "unsign", "wrongkey", "flip", "unsign", "wrongkey", "shortmac", "shortmac")
 		}
 		nf := 1
 		if core.Chance(r, 20) {
@@ -147,6 +151,9 @@ func Gen(seed uint64, tier string) any {
 			if op.Kind == "flip" {
 				op.Region = core.Pick(r, "header", "id", "counts", "question", "records", "records", "tsig", "mac")
 				op.Frac, op.Bit = r.IntN(1000), r.IntN(8)
+			}
+			if op.Kind == "shortmac" {
+				op.Frac = core.Pick(r, 0, 0, 1, 4, 9) // octets of MAC kept
 			}
 			if op.Kind == "delay" {
 				f := sc.Fudge
@@ -252,6 +259,7 @@ func Shrink(x any) []any {
 	num(func(n *Scenario) *int { return &n.Strategy })
 	num(func(n *Scenario) *int { return &n.CutAt })
 	num(func(n *Scenario) *int { return &n.ConsumerMs })
+	num(func(n *Scenario) *int { return &n.PaceMs })
 	if sc.Sender == "out" {
 		n := cp()
 		n.Sender = "scripted"
@@ -514,6 +522,9 @@ func (s *scriptedTask) RunEvent(time.Time) {
 			return
 		}
 		k.Yield("sender.next", 0)
+		if sc.PaceMs > 0 {
+			k.Sleep("sender.pace", time.Duration(sc.PaceMs)*time.Millisecond)
+		}
 	}
 	// keep the connection open: a correct receiver ends the session itself
 	k.Sleep("sender.linger", 30*time.Second)
@@ -673,11 +684,13 @@ func (x *run) judge(start0 time.Time) {
 	}
 	delivered := x.relay.Out["s2c"]
 	original := x.relay.In["s2c"]
-	// stream cut: only frames that fit before the cut reached the client
-	if sc.CutAt > 0 {
+	// what reached the receiver = the forwarded messages it read completely
+	// (a cut link, a stalled middlebox or its own timeout may have ended its
+	// reading earlier)
+	{
 		acc, whole := 0, 0
 		for _, f := range delivered {
-			if acc+2+len(f) <= sc.CutAt {
+			if acc+2+len(f) <= x.cliConn.ReadTotal {
 				whole++
 				acc += 2 + len(f)
 			} else {
@@ -686,7 +699,9 @@ func (x *run) judge(start0 time.Time) {
 		}
 		if whole < len(delivered) {
 			delivered = delivered[:whole]
-			res.Bump("fault.stream_cut_mid_transfer")
+			if sc.CutAt > 0 {
+				res.Bump("fault.stream_cut_mid_transfer")
+			}
 		}
 	}
 	clientTSIG := sc.Alg != "" && sc.ClientKey
